@@ -7,7 +7,7 @@
     traces observed on the implementation ([spec_c01]), so that the theorem below says: the state machine
     that agrees with the implementation step by step implements this fold on every history. *)
 From Xds Require Import Model.Base Model.Fqdn Model.Proto Model.Decode Model.DecodeCheck Model.Pick Model.Route Model.Mw Model.Sys Model.SysCheck.
-From Xds Require Import Proofs.DecodeProofs Proofs.C01Proofs Proofs.ResolveProofs.
+From Xds Require Import Model.FullView Proofs.DecodeProofs Proofs.C01Proofs Proofs.ResolveProofs Proofs.FullProofs.
 Open Scope string_scope.
 
 (** Refinement, for every history (of any length) of subscriptions, lookups, bursts of lookups, responses of
@@ -27,6 +27,27 @@ Theorem C01_refinement_with_resolutions : forall c o t n h, t <> TNt -> t <> TEp
   abs t n (fst (run c o s h)) = fold_left (kv_step c o t n) h (abs t n s).
 Proof. exact run_refines_hist. Qed.
 Print Assumptions C01_refinement_with_resolutions.
+
+(** The COMPLETE per-key refinement (Model/FullView.v, [fv_step]): the view records whether the key itself is of
+    interest (rather than the whole interest set), its access record and the clock, and follows EVERY operation - eviction
+    sweeps, clock ticks and the back-dating device included.  After ANY history the content served for a key, whether
+    it is of interest, its access record, the name table, the clock and the open/closed status are those of the fold.
+    ([full_op] only excludes resolver lookups for endpoint-set keys, which C10_endpoints_are_fold covers.)
+    The same fold is evaluated on the implementation's traces around real sweeps ([spec_full], C19 check). *)
+Theorem C01_refinement_full : forall c o t n h, t <> TNt -> forallb (full_op t) h = true ->
+  absf t n (final c o h) = fold_left (fv_step c o t n) h fv_init.
+Proof. exact final_refines_full. Qed.
+Print Assumptions C01_refinement_full.
+
+Theorem C01_full_example :
+  let c := {| sc_nds_required := false; sc_f := {| f_ns := "default"; f_dom := "cluster.local" |} |} in
+  let o := mk_oracle [] [] [] in
+  let cl n := RGood {| cl_name := n; cl_type := Some 3; cl_lb := 0; cl_eds_service := None; cl_outlier := None; cl_load := None |} in
+  let h := [OSubscribe TCl "a"; OSubscribe TCl "b"; OResp "1" "n1" (PCds [cl "a"; cl "b"]); OTick 20000; OLookup TCl "b"; OTick 20000; OSweep;
+            OResp "2" "n2" (PCds [cl "a"; cl "b"])] in
+  map (fun n => let v := fold_left (fv_step c o TCl n) h fv_init in (fv_in v, is_some (fv_val v), fv_meta v)) ["a"; "b"] =
+  [(false, false, None); (true, true, Some 1020000%N)].
+Proof. exact full_example_proof. Qed.
 
 (** A lookup succeeds exactly when the fold contains the name and returns the fold's content. *)
 Theorem C01_lookup_serves_fold : forall c o t n h, t <> TNt -> forallb c01_op h = true ->
